@@ -44,6 +44,19 @@ Theorem C06_plain : C06_plain_statement.
 Proof. exact plain_events. Qed.
 Print Assumptions C06_plain.
 
+(* Attributes (and, under two reserved keys, the path parameters and the selected route) are ONE map threaded
+   through container filters, service filters, route filters, the route function and back: what a stage sets is
+   what every later stage sees — for filters that pass on the wrapper they were given. *)
+Definition C06_attributes_statement : Prop :=
+  forall (O : oracles) (cfg : dcfg) (req : request) (already : bool) (s : rstate),
+    cfg_has_panic cfg = false -> cfg_has_fresh cfg = false ->
+    route_request O (d_table cfg) req <> RPanic ->
+    (match route_request O (d_table cfg) req with RError _ => st_attrs s = [] | _ => True end) ->
+    exists s', dispatch O cfg req already s = Done s' /\ vlog s' = vlog s ++ expected_sees O cfg req.
+Theorem C06_attributes : C06_attributes_statement.
+Proof. exact dispatch_sees. Qed.
+Print Assumptions C06_attributes.
+
 Example C06_example :
   let f (id : string) pass := {| f_id := L id; f_pre := []; f_pass := pass; f_post := []; f_fresh := false; f_mw := 0 |} in
   chain_events [f "c0"%string true; f "s0"%string true; f "r0"%string false; f "r1"%string true] [L "H:1"]
